@@ -136,3 +136,26 @@ def _imp_rule(A, r):
 REG_IMP = REGISTRY[f"{IMP}::Imputer.transform"]
 REG_IMP.ensures.append(("the-chosen-rule-then-forward-and-backward-fill", _imp_rule, {"modular": False}))
 REG_IMP.prop = "C12,C13,C14"
+
+
+# ----------------------------------------------------------------------------- _slope works on VIEWS of the caller's panel: it must not write them
+SLOPE = "sktime/utils/slope_and_trend.py"
+
+
+def _slope_frame_inputs(B, case):
+    n, L = B.int("n_instances", 1), B.int("n_timepoints", 2)
+    X = B.arr("X", dtype="real", shape=[n, L])
+    a, b = B.int("start", 0), B.int("end", 0)
+    B.assume(And(a < b, b <= Z(L)))
+    from pyvc.libnp import nd_getitem
+    from pyvc.values import SSlice
+    win = nd_getitem(B.I, X, [SSlice(None, None, None), SSlice(a, b, None)])      # X[:, a:b] -- a view, as in the forests' _transform
+    win.ghost_base = X
+    return {"y": win, "axis": 1}
+
+
+contract(f"{SLOPE}::_slope#frame", "C12,C17", cases=["-"], inputs=_slope_frame_inputs,
+         frame=lambda A: [A.y, A.y.ghost_base],
+         ensures=[("one-slope-per-row", lambda A, r: isinstance(r, SArr) and r.ndim == 1 and Eq(r.len, A.y.shape[0]))],
+         notes=["frame only: the window handed to _slope by the interval forests is a VIEW of the caller's array; an in-place operator "
+                "on it would be a write to the caller's data. The slope VALUE is an assumed contract at call sites (C17)"])
